@@ -443,7 +443,7 @@ def prove(ctx):
 
 
 def correspond(ctx):
-    run(ctx, PROP, 450, 8000)
+    run(ctx, PROP, 320, 6000)
     if not ctx.quick():
         real_runs(ctx, PROP)
 
